@@ -87,12 +87,16 @@ def check_sgio(prog, run):
     file = prog.rel(ex.module)
     npaths = 0
     nfault = 0
-    for raw in (False, True):
+    for raw, prior in ((False, None), (True, None), (False, "reused"), (True, "reused")):
         si = StandIn(prog, check_condition="fork", other_sgio_error="fork").install()
         try:
-            def t(raw=raw):
+            def t(raw=raw, prior=prior):
                 dev = make_scsi_device(prog)
                 cmd, cdb, dout, din = marker_cmd(prog, 0, 8)
+                if prior:
+                    # the same command object is executed again after an earlier CHECK CONDITION (a retry loop)
+                    cmd.attrs["_sense"] = External("sense-of-the-previous-failure")
+                    cmd.attrs["_raw_sense_data"] = External("sense-of-the-previous-failure") if raw else None
                 try:
                     I.call_function(ex, [dev, cmd], {"en_raw_sense": raw}, None, _F())
                 finally:
@@ -108,7 +112,7 @@ def check_sgio(prog, run):
             other = any("another error" in d for d in conds)
             final = [e for e in p.events if e["kind"] == "final"][-1]
             rawv = final["raw"]
-            label = "SCSIDevice.execute en_raw_sense=%s [%s]" % (raw, p.cond_str())
+            label = "SCSIDevice.execute en_raw_sense=%s%s [%s]" % (raw, " (command object reused)" if prior else "", p.cond_str())
             for e in discarded_exceptions(prog, p):
                 run.violation("exception-constructed-not-raised", "%s %s" % (ex.qualname, norm(e["node"])),
                               "an exception object is built and discarded: `%s` is an expression statement, not `raise`"
@@ -117,7 +121,7 @@ def check_sgio(prog, run):
             if cc:
                 nfault += 1
                 name = exc_name(p)
-                c = "SCSIDevice.execute CHECK CONDITION en_raw_sense=%s" % raw
+                c = "SCSIDevice.execute CHECK CONDITION en_raw_sense=%s%s" % (raw, " on a reused command object" if prior else "")
                 if not p.returned:
                     arg = p.raised.exc.attrs.get("__sense_arg__") if isinstance(p.raised.exc, Instance) else None
                     if name != "CheckCondition":
@@ -125,7 +129,7 @@ def check_sgio(prog, run):
                     elif not (isinstance(arg, External) and arg.name == "sgio.CheckConditionError.sense"):
                         run.violation("check-condition-carries-sense", c, "CheckCondition is built from %r, not from the binding's sense bytes" % (arg,),
                                       file, ex.node.lineno, ex.qualname)
-                    elif not raw and rawv is not None:
+                    elif not raw and rawv is not None and not prior:
                         run.violation("raw-sense-only-on-request", c, "cmd.raw_sense_data is set although raw sense was not requested",
                                       file, ex.node.lineno, ex.qualname)
                     else:
@@ -147,6 +151,12 @@ def check_sgio(prog, run):
                     run.ok("binding-error-propagates", c)
             else:
                 c = "SCSIDevice.execute GOOD en_raw_sense=%s" % raw
+                if prior:
+                    if p.returned:
+                        run.ok("good-returns", c + " (reused command)")
+                    else:
+                        run.violation("good-returns", c + " (reused command)", "a successful command raises %s" % exc_name(p), file, ex.node.lineno, ex.qualname)
+                    continue
                 if p.returned and rawv is None:
                     run.ok("good-returns", c)
                 else:
@@ -163,12 +173,14 @@ def check_iscsi(prog, run):
     skey = ("ext", "iscsi.Task().status")
     seen_eq = set()
     npaths = 0
-    for raw in (False, True):
+    for raw, prior in ((False, None), (True, None), (False, "reused"), (True, "reused")):
         si = StandIn(prog).install()
         try:
-            def t(raw=raw):
+            def t(raw=raw, prior=prior):
                 dev = make_iscsi_device(prog)
                 cmd, cdb, dout, din = marker_cmd(prog, 0, 8)
+                if prior:
+                    cmd.attrs["_sense"] = External("sense-of-the-previous-failure")
                 try:
                     I.call_function(ex, [dev, cmd], {"en_raw_sense": raw}, None, _F())
                 finally:
@@ -188,9 +200,9 @@ def check_iscsi(prog, run):
             if fact is not None and fact[0] == "eq":
                 st = fact[1]
                 seen_eq.add(st)
-                c = "ISCSIDevice.execute status %#04x en_raw_sense=%s" % (st, raw)
+                c = "ISCSIDevice.execute status %#04x en_raw_sense=%s%s" % (st, raw, " on a reused command object" if prior else "")
                 if st == reft.GOOD:
-                    if p.returned and final["raw"] is None:
+                    if p.returned and (final["raw"] is None or prior):
                         run.ok("status-dispatch", c, {"outcome": "return"})
                     else:
                         run.violation("status-dispatch", c, "GOOD status does not return normally (%s)" % name, file, ex.node.lineno, ex.qualname)
@@ -207,6 +219,12 @@ def check_iscsi(prog, run):
                 else:
                     if st == 0x02:
                         arg = p.raised.exc.attrs.get("__sense_arg__") if isinstance(p.raised.exc, Instance) else None
+                        if isinstance(arg, External) and arg.name == "sense-of-the-previous-failure":
+                            run.violation("check-condition-carries-sense", c,
+                                          "the CheckCondition reports the sense data of an EARLIER failure of the same command object, not "
+                                          "what the target sent now (cmd.sense is only filled in when it is still empty)",
+                                          file, ex.node.lineno, ex.qualname)
+                            continue
                         if not (isinstance(arg, External) and arg.name in ("iscsi.Task().raw_sense",)):
                             # sense unavailable (AttributeError path): cmd.sense stays None
                             if not (arg is None and any("raw_sense" in str(d) for d, cc_, _, _ in p.path)):
@@ -222,7 +240,7 @@ def check_iscsi(prog, run):
                             continue
                     run.ok("status-dispatch", c, {"outcome": "raise %s" % name})
             else:
-                c = "ISCSIDevice.execute any other status en_raw_sense=%s" % raw
+                c = "ISCSIDevice.execute any other status en_raw_sense=%s%s" % (raw, " (reused)" if prior else "")
                 if p.returned:
                     run.violation("unknown-status-raises", c,
                                   "a status that equals none of the tested constants (%s) returns normally" % (sorted(fact[1]) if fact else "?"),
